@@ -216,7 +216,7 @@ def _(lc):
 
 
 @bounded("plane-histories-vs-brute-force", props=["C20"],
-         bound="all add/remove/find/iterate histories of <= 4 operations over 3 boxes from a 5-value dyadic grid (quick: seeded sample of 4000 histories; thorough: 60000), index bounds (0,0,8,8), gridsize in {1,3,50}")
+         bound="add/remove/find/iterate histories of <= 4 operations over 3 boxes (a quarter: <= 10 operations over 6 boxes, most members removed again) from a 5-value dyadic grid (quick: seeded sample of 4000 histories; thorough: 60000), index bounds (0,0,8,8), gridsize in {1,3,50}")
 def _(tier, seed):
     import random, itertools
     from pyvc.extract import real_module
@@ -240,13 +240,14 @@ def _(tier, seed):
     for _ in range(n):
         g = rng.choice([1, 3, 50])
         boxes = []
-        for i in range(3):
+        long_history = rng.random() < 0.25          # a quarter of the histories: 6 boxes and up to 10 operations (most members removed again)
+        for i in range(6 if long_history else 3):
             x0, x1 = sorted(rng.sample(vals, 2)); y0, y1 = sorted(rng.sample(vals, 2))
             boxes.append(Box((x0, y0, x1, y1), i))
         p = Plane((0, 0, 8, 8), gridsize=g)
         live, seq, hist = [], [], []
-        for _step in range(4):
-            op = rng.choice(["add", "add", "remove", "find", "iter"])
+        for _step in range(10 if long_history else 4):
+            op = rng.choice(["add", "add", "remove", "find", "iter"]) if not long_history else (rng.choice(["add", "add", "add"]) if _step < 5 else rng.choice(["remove", "remove", "iter", "find"]))
             if op == "add":
                 cand = [b for b in boxes if b not in live and b not in seq]
                 if not cand:
